@@ -9,6 +9,7 @@
 //   * path independence of printing: the mirrored call op(b, a) of a commutative op, and the node rebuilt from
 //     r's own arguments in reverse order, print the same string whenever they are the same value (same key);
 //     duplicate arrivals at one state found while building the state set print the same string.
+#include "bigints.h"
 #include "common.h"
 #include "explore.h"
 #include <symengine/parser/parser.h>
@@ -788,6 +789,38 @@ int main(int argc, char **argv)
             check_state(G.SS.S[i].e, G.SS.S[i].recipe, c);
         };
         run_cases(cs);
+    }
+    // boundary integers: every integer next to a representation boundary (int / long / unsigned long / limb sizes, the
+    // decimal digit counts around LONG_MAX) in every syntactic position a number can take
+    {
+        std::vector<integer_class> B = verif::boundary_integers();
+        std::vector<std::pair<std::string, RCP<const Basic>>> bs;
+        for (auto &n : B) {
+            RCP<const Integer> N = integer(n);
+            std::string t = verif::bstr(n);
+            bs.push_back({t, N});
+            bs.push_back({"(" + t + ")/3", Rational::from_mpq(rational_class(n, integer_class(3)))});
+            bs.push_back({"3/(" + t + ")", div(integer(3), N)});
+            bs.push_back({"(" + t + ")*x", mul(N, x)});
+            bs.push_back({"x**(" + t + ")", pow(x, N)});
+            bs.push_back({"x+(" + t + ")", add(x, N)});
+            bs.push_back({"sin(" + t + ")", sin(N)});
+            bs.push_back({"(" + t + ")+I", add(N, I)});
+            bs.push_back({"1/2+(" + t + ")/3*I", add(Q(1, 2), mul(Rational::from_mpq(rational_class(n, integer_class(3))), I))});
+            bs.push_back({"x<(" + t + ")", Lt(x, N)});
+        }
+        CaseSet cs;
+        cs.name = "G:boundary-integers";
+        cs.n = bs.size();
+        cs.counter_names = CN;
+        cs.desc = [&](long long i) { return "boundary integer form " + bs[i].first; };
+        cs.body = [&](long long i, Ctx &c) {
+            c.eval();
+            c.nontrivial();
+            check_state(bs[i].second, bs[i].first, c);
+        };
+        run_cases(cs);
+        R.counters["G:boundary_integer_forms"] = bs.size();
     }
     auto all = [](const Op &) { return true; };
     auto quick_l2 = [](const Op &o) { return o.arith || o.kind != BE; }; // two-argument functions only as outermost op of depth 1
